@@ -790,6 +790,21 @@ func (e *SpecEnv) call(n *ECall) (tv, error) {
 			case "replaceAll":
 				return tv{t: fmt.Sprintf("(str.replace_all %s %s %s)", as[0].t, as[1].t, as[2].t), ty: tString}, nil
 			}
+		case "iface":
+			// iface(x): the interface value holding x (dynamic type = static type of x)
+			as, err := argv()
+			if err != nil {
+				return tv{}, err
+			}
+			a := asPtr(as[0])
+			if a.ty == nil {
+				return tv{t: "(mk-iface 0 0)", ty: types.NewInterfaceType(nil, nil)}, nil
+			}
+			if isRefLike(a.ty) {
+				return tv{t: fmt.Sprintf("(mk-iface %d %s)", d.typeTag(a.ty), a.t), ty: types.NewInterfaceType(nil, nil)}, nil
+			}
+			box, _ := d.boxFuns(a.ty)
+			return tv{t: fmt.Sprintf("(mk-iface %d (%s %s))", d.typeTag(a.ty), box, a.t), ty: types.NewInterfaceType(nil, nil)}, nil
 		case "bstr":
 			as, err := argv()
 			if err != nil {
